@@ -162,19 +162,19 @@ func (g *InterProceduralFlowGraph) BuildGraph() {
 		}
 	}
 
-	// Writes the summaries to file if the option is set
+	// Writes the summaries to file if the option is set.
+	// This is a read-only operation on the summaries, but it must complete before STEP 3 below starts modifying the
+	// summaries (and the map that contains them) and before the deferred summariesFile.Close() runs. It is therefore
+	// not run in a separate goroutine.
 	if summariesFile != nil {
-		// Read-only operation on summaries
-		go func() {
-			for _, summary := range g.Summaries {
-				if summary == nil {
-					continue
-				}
-				_, _ = summariesFile.WriteString(fmt.Sprintf("%s:\n", summary.Parent.String()))
-				summary.Print(false, summariesFile)
-				_, _ = summariesFile.WriteString("\n")
+		for _, summary := range g.Summaries {
+			if summary == nil {
+				continue
 			}
-		}()
+			_, _ = summariesFile.WriteString(fmt.Sprintf("%s:\n", summary.Parent.String()))
+			summary.Print(false, summariesFile)
+			_, _ = summariesFile.WriteString("\n")
+		}
 	}
 
 	// STEP 3: link all the summaries together
